@@ -235,7 +235,7 @@ func init() {
 				positions = append(positions, nil)
 				continue
 			}
-			items, next, _ := positions[pos].Harvest(uint(q), uint(start))
+			items, next, nextStart := positions[pos].Harvest(uint(q), uint(start))
 			out = append(out, len(items))
 			for _, it := range items {
 				if fi, ok := it.(*fakeItem); ok {
@@ -244,11 +244,12 @@ func init() {
 					out = append(out, -9)
 				}
 			}
+			// the continuation is a splicer already advanced past what was delivered: the offset that goes with it is 0
 			if next == nil {
-				out = append(out, 0)
+				out = append(out, 0, int(nextStart))
 				positions = append(positions, nil)
 			} else {
-				out = append(out, 1)
+				out = append(out, 1, int(nextStart))
 				positions = append(positions, next)
 			}
 		}
